@@ -389,11 +389,22 @@ func (session *HermesSession) Run(workingDir string, args []string, logID string
 						for LT := g.UKT[L-1] + 1; LT <= g.UKT[L]; LT++ {
 							LTindex := LT - 1
 							if LT < g.N+1 {
-								g.W[LTindex] = g.FELDW[Lindex] * (1 - g.STEIN[Lindex])
-								g.WMIN[LTindex] = g.LIM[Lindex] * (1 - g.STEIN[Lindex])
-								g.PORGES[LTindex] = g.PRGES[Lindex] * (1 - g.STEIN[Lindex])
-								g.WNOR[LTindex] = g.NORMFK[Lindex] * (1 - g.STEIN[Lindex])
+								if g.FKA[Lindex] > 0 {
+									// horizon with its own values in the soil file (profile with mixed sources): keep them, as the input module does
+									g.W[LTindex] = g.FKA[Lindex] / 100
+									g.WMIN[LTindex] = g.WP[Lindex] / 100
+									g.PORGES[LTindex] = g.GPV[Lindex] / 100
+									g.WNOR[LTindex] = g.FKA[Lindex] / 100
+								} else {
+									g.W[LTindex] = g.FELDW[Lindex] * (1 - g.STEIN[Lindex])
+									g.WMIN[LTindex] = g.LIM[Lindex] * (1 - g.STEIN[Lindex])
+									g.PORGES[LTindex] = g.PRGES[Lindex] * (1 - g.STEIN[Lindex])
+									g.WNOR[LTindex] = g.NORMFK[Lindex] * (1 - g.STEIN[Lindex])
+								}
 							}
+						}
+						if L == 1 && g.FKA[Lindex] > 0 {
+							calcWRed(g.WP[Lindex], g.FKA[Lindex], &g)
 						}
 					}
 				} else {
